@@ -86,7 +86,7 @@ fn run_case<G: AffineRepr>(env: &Env<G>, c: &Case) -> CaseOut {
     let mut prev: Option<(F<G>, F<G>, G)> = None;
     for (i, v) in vals.iter().enumerate() {
         // all pairs on the edge set, a sliding window elsewhere
-        let partners: Vec<usize> = if i < 12 { (0..12.min(vals.len())).collect() } else { vec![(i * 7 + 3) % vals.len(), (i + 1) % vals.len()] };
+        let partners: Vec<usize> = if i < 18 { (0..18.min(vals.len())).collect() } else { vec![(i * 7 + 3) % vals.len(), (i + 1) % vals.len()] };
         for j in partners {
             let b = vals[j];
             o.evals += 1;
@@ -115,7 +115,7 @@ fn run_case<G: AffineRepr>(env: &Env<G>, c: &Case) -> CaseOut {
             }
             prev = Some((*v, b, got));
         }
-        if i < 14 {
+        if i < 18 {
             o.sig(format!("{}|bases={}|edge{}", env.curve, c.bases, i));
         }
     }
